@@ -746,6 +746,18 @@ func c06Main(r *engine.Run) {
 	if done {
 		r.Bound(fmt.Sprintf("S(%d,%d) = %d shapes × 4 ctypes × %d float rotations (valid instantiations)", d, w, len(shapes), len(offs)))
 	}
+	for _, ct := range allCT {
+		for i, g := range wideGeoms(ct) {
+			c := shapeCase{Idx: i, Shape: fmt.Sprintf("wide #%d (%s)", i, g.Type()), CT: int(ct), Sup: "wide"}
+			if g.Validate() != nil {
+				continue
+			}
+			if p := engine.SafeCall(func() { c06Geom(r, g, c) }); p != nil {
+				r.Violation("C06/panic", "shape", c, fmt.Sprint(p))
+			}
+		}
+	}
+	r.Bound("wide collections (33..500 direct members, 40-member Multi*, collection of collections) × 4 ctypes")
 	c06Documents(r)
 	c06Features(r)
 }
